@@ -35,9 +35,61 @@ var c03Compound = []struct {
 	{"!o.a && o.b", func(a, b, c bool) bool { return !a && b }},
 }
 
-var c03NCompound = len(c03Compound) * 8
+var c03NCompound = len(c03Compound)*8 + len(c03BareChains)*8
+
+// chains whose members are bare elements (no attribute but the directive, no children), closing their parent: exactly
+// the chosen member is a child of the parent
+var c03BareChains = []string{
+	`<div data-m="w"><hr v-if="a"><input v-else-if="b"><p v-else>none</p></div>`,
+	`<section><div data-m="w"><hr v-if="a"><wbr v-else-if="b"><img v-else-if="c"></div></section>`,
+	`<ul data-m="w"><li v-if="a"></li><li v-else-if="b"></li><li v-else></li></ul>`,
+}
+
+func c03ExecBareChain(c c03Case, o *core.Obs) {
+	tpl := c03BareChains[(c.K-len(c03Compound))%len(c03BareChains)]
+	a, b, cc := c.Path[0] == '1', c.Path[1] == '1', c.Path[2] == '1'
+	out, err := renderStr(tpl, map[string]any{"a": a, "b": b, "c": cc})
+	o.Evals++
+	o.NT("barechain", tpl, c.Path)
+	o.Cell("part/compound/bare-chain")
+	if err != nil {
+		o.Fail(c, "barechain/error", "render failed: %v\ntemplate: %s", err, tpl)
+		return
+	}
+	ws := oracle.Parse(out, false).ByAttr("data-m", "w")
+	if len(ws) != 1 {
+		o.Fail(c, "barechain/parent-lost", "parent element found %d times\noutput: %s", len(ws), out)
+		return
+	}
+	var kids []string
+	for _, k := range ws[0].Kids {
+		if k.Kind != "text" {
+			kids = append(kids, k.Name)
+		}
+	}
+	// the members, in template order, with their conditions
+	var want []string
+	names := map[int][]string{0: {"hr", "input", "p"}, 1: {"hr", "wbr", "img"}, 2: {"li", "li", "li"}}[(c.K-len(c03Compound))%len(c03BareChains)]
+	conds := []bool{a, b, true}
+	if (c.K-len(c03Compound))%len(c03BareChains) == 1 {
+		conds[2] = cc
+	}
+	for i, ok := range conds {
+		if ok {
+			want = []string{names[i]}
+			break
+		}
+	}
+	if strings.Join(kids, ",") != strings.Join(want, ",") {
+		o.Fail(c, "barechain/not-exactly-the-chosen-member", "a=%v b=%v c=%v: the parent must hold exactly %v, it holds %v\ntemplate: %s\noutput: %s", a, b, cc, want, kids, tpl, out)
+	}
+}
 
 func c03ExecCompound(c c03Case, o *core.Obs) {
+	if c.K >= len(c03Compound) {
+		c03ExecBareChain(c, o)
+		return
+	}
 	ce := c03Compound[c.K%len(c03Compound)]
 	a, b, cc := c.Path[0] == '1', c.Path[1] == '1', c.Path[2] == '1'
 	want := ce.eval(a, b, cc)
